@@ -51,6 +51,10 @@ def deps(prog):
   return direct, out
 
 
+def fam_all(families):
+  return {t for fam in families for t in fam}
+
+
 def build(rng):
   g = progen.Gen(rng, {'n_ext': (0, 1), 'n_der': (0, 0), 'lists': 0.2, 'records': 0.2, 'func': 0.7, 'inj': 0.3, 'agg': 0.25,
                        'combine': 0.25, 'neg': 0.25, 'max_facts': 4})
@@ -85,6 +89,24 @@ def build(rng):
     g.gen_injectible()
   for _ in range(rng.randint(3, 6)):
     g.gen_derived()
+  # a forced chain  F -> Mid -> Inner -> A  (the argument is reached through two intermediates only) ...
+  chain = None
+  big = [fam for fam in families if len(fam) >= 3]
+  if big and rng.random() < 0.6:
+    fam = rng.choice(big)
+    saved = (g.f.get('func'), g.f.get('inj'))
+    g.f['func'] = 0.0            # no functional calls: the chain must be the only path to the argument
+    g.f['inj'] = 0.0
+    unrelated = [n for n in g.order if g.preds[n]['kind'] == 'ext' and n not in fam_all(families)]
+    g.call_pool = [fam[0]]
+    inner = g.gen_derived()
+    g.call_pool = [inner] + unrelated[:1]
+    mid = g.gen_derived()
+    g.call_pool = [mid] + unrelated[:1]
+    top = g.gen_derived()
+    g.call_pool = None
+    g.f['func'], g.f['inj'] = saved
+    chain = (top, mid, inner, fam)
   prog = {'rules': g.rules, 'annotations': [('Engine', 'sqlite')], 'preds': g.preds, 'order': list(g.order), 'features': dict(g.used_features)}
   direct, closure = deps(prog)
   fam_of = {t: fam for fam in families for t in fam}
@@ -94,8 +116,19 @@ def build(rng):
     return None
   makes = []
   feats = {}
-  made_names = iter(['N1', 'N2', 'N3', 'N4'])
+  made_names = iter(['N1', 'N2', 'N3', 'N4', 'N5', 'N6'])
   made_meta = {}
+  if chain is not None:
+    top, mid, inner, fam = chain
+    if fam[0] in closure.get(top, set()) and fam[0] not in direct.get(top, set()) and fam[0] not in direct.get(mid, set()):
+      # ... applied twice (or the functor and its intermediate) with different bindings: instantiated intermediates must not be shared
+      second = top if rng.random() < 0.7 else mid
+      for f, tgt in ((top, fam[1]), (second, fam[2])):
+        name = next(made_names)
+        makes.append((name, f, ((fam[0], tgt),)))
+        made_meta[name] = dict(prog['preds'][f], made=True)
+      feats['deep_chain_two_bindings'] = 1
+      feats['through_intermediate'] = feats.get('through_intermediate', 0) + 2
   for k in range(rng.choice([1, 2, 2, 3, 4])):
     name = next(made_names)
     x = rng.random()
